@@ -183,13 +183,10 @@ def register(R):
 
     s.ensures("all_or_nothing", lambda a, r: Or(ok(r), failed(r), nothing(r)), ("C09",))
 
-    def tr_inv02(a, r):
-        s2 = r[1].val()
-        vid = a.prev_state.vehicle_id
-        return Implies(And(ok(r), s2.vehicles.has(vid), l1_instances(a.sim.vehicles, vid, s2.vehicles.get(vid).val())),
-                       inv02(s2))
-    s.ensures("inv02_preserved", tr_inv02, ("C02",))
-    s.lemmas = ["L1 (sum point-update) instances for the vehicles map"]
+    s.ensures("inv02_preserved", lambda a, r: Implies(ok(r), inv02(r[1].val())), ("C02",))
+    s.uses_lemma("L1 sum point-update (lemmas/L1.lean)", lambda a, r: Implies(
+        And(ok(r), r[1].val().vehicles.has(a.prev_state.vehicle_id)),
+        l1_instances(a.sim.vehicles, a.prev_state.vehicle_id, r[1].val().vehicles.get(a.prev_state.vehicle_id).val())))
 
     def tr_frame(a, r):
         s2 = r[1].val()
